@@ -44,7 +44,7 @@ def group (strictCheck : Bool) (nGroups : Nat) (cutoff0 delta : α) [OfNat α 10
         let g := sweepGroups cutoff params
         let n := g.length
         let c1 := if n > nGroups - 1 then cutoff + delta else cutoff
-        let c2 := if n < nGroups - 1 then c1 / 10 else c1
+        let c2 := if n < nGroups then c1 / 10 else c1
         loop fuel c2 g true
   let (g, left) := loop 1000 cutoff0 [] false
   -- the while loop runs while n_grp != n_groups and iter < 1000
